@@ -342,8 +342,9 @@ def explore(harness, known=(), budget_s=600.0, per_path_s=60.0, max_paths=10**9,
 class _FnCollector:
     """Collects the /repo functions entered while replaying witnesses concretely."""
 
-    def __init__(self, root="/repo/"):
-        self.root = root
+    def __init__(self, root=None):
+        import os
+        self.root = root or (os.environ.get("VERIF_REPO", "/repo").rstrip("/") + "/")
         self.seen = set()
 
     def __call__(self, frame, event, arg):
